@@ -271,6 +271,15 @@ func (c02) Check(out *sim.Outcome, ri *RunInfo) []Violation {
 				}
 			}
 			pe := p.Ep[v.Ep.Idx]
+			if !pe.Read && v.Run != nil {
+				// a reply nobody read is only owed its hop if it could still have changed the result: once the
+				// run reports the destination at TTL d, nothing for a TTL above d can (the path ends at d), and
+				// nothing for d itself can (a destination entry is never replaced)
+				if n := len(v.Run.Hops); n > 0 && v.Run.Hops[n-1].IsDest && p.Origin.TTL >= v.Run.Hops[n-1].TTL {
+					ri.probe("unread-reply-could-not-change-the-result")
+					continue
+				}
+			}
 			if !pe.Read {
 				why := "never returned by Read"
 				if pe.Seen && !pe.Accepted {
